@@ -745,7 +745,7 @@ func c13Gen(tier string, rng *rand.Rand) []c13Case {
 	for i := 0; i < n; i++ {
 		for _, k := range []string{"rr", "random", "modhash"} {
 			for _, w := range []bool{false, true} {
-				mode := []string{"plain", "hostile", "mixed", "ratio"}[i%4]
+				mode := []string{"plain", "hostile", "mixed", "ratio"}[(i+i/6)%4] // not in step with the scripted history i%6
 				cs = append(cs, c13GenHistory(rng, k, w, mode))
 				cs = append(cs, c13GenScenario(rng, k, w, mode, i))
 			}
